@@ -228,6 +228,21 @@ def check_molecule(ctx, case):
             ctx.violation('GoRT(S_elements) - GoRT != elemental sum', case,
                           {'T': T, 'got': g1 - g0, 'want': want})
             ok = False
+        # the request spelled in other ways: False / 0 / None do not ask for
+        # the elemental reference, 1 does
+        for lab, flag, ws, wg in (('False', False, s0, g0), ('0', 0, s0, g0),
+                                  ('None', None, s0, g0), ('1', 1, s1, g1)):
+            sv, _ = _get(ctx, case, 'get_SoR(S_elements=%s)' % lab,
+                         est.get_SoR, T, S_elements=flag)
+            gv, _ = _get(ctx, case, 'get_GoRT(S_elements=%s)' % lab,
+                         est.get_GoRT, T, S_elements=flag)
+            if sv is None or gv is None or sv != ws or gv != wg:
+                ctx.violation('S_elements=%s does not mean "%s"' % (
+                    lab, 'requested' if flag else 'not requested'), case,
+                    {'T': T, 'SoR': sv, 'GoRT': gv, 'expected_SoR': ws,
+                     'expected_GoRT': wg})
+                ok = False
+                break
         ctx.count('elemental_clause_decided')
         if not check_units(ctx, case, est, T, True, want):
             ok = False
